@@ -2,7 +2,7 @@
    RTree model, and the reference sorted map of C01 (Spec).  Values are Z in
    this instance; a TreeSet / Set stores value 0 and its outputs never show it. *)
 From Coq Require Import ZArith List Bool Arith.
-From BT Require Import Model.RTree.
+From BT Require Import Model.RTree Model.TreeSpec.
 Import ListNotations.
 Open Scope Z_scope.
 
@@ -207,6 +207,14 @@ Inductive wtcase :=
   TC (ml mi : nat) (vsame iand_rebuilds : bool) (calls : list call) (outs : list out)
      (final : wshape) (items : list wkv).
 
+(* the C03 invariant after every step of the model's run *)
+Fixpoint run_wf (vs ir : bool) (ml mi : nat) (s : st) (cs : list call) : bool :=
+  match cs with
+  | [] => true
+  | c :: r => let '(s1, _) := step vs ir ml mi s c in
+              wfb Z ml mi (t_tree s1) && run_wf vs ir ml mi s1 r
+  end.
+
 Definition tcase_ok (c : wtcase) : bool :=
   match c with
   | TC ml mi vs ir calls outs final items =>
@@ -214,6 +222,20 @@ Definition tcase_ok (c : wtcase) : bool :=
     outs_eqb os outs &&
     wshape_eqb (shape_of Z (t_tree s)) final &&
     kvl_eqb (map kv_of (contents Z (t_tree s))) items &&
+    run_wf vs ir ml mi init calls &&
     (* the model itself refines the reference map on this history *)
     (let '(m, os') := Spec.run [] calls in outs_eqb os' outs && kvl_eqb (map kv_of m) items)
   end.
+
+(* C03 correspondence: the observed shape after every call *)
+Inductive wt3case := TC3 (ml mi : nat) (vsame iand_rebuilds : bool) (calls : list call) (shapes : list wshape).
+Fixpoint run_shapes_ok (vs ir : bool) (ml mi : nat) (s : st) (cs : list call) (shs : list wshape) : bool :=
+  match cs, shs with
+  | [], [] => true
+  | c :: r, sh :: shs' =>
+    let '(s1, _) := step vs ir ml mi s c in
+    wshape_eqb (shape_of Z (t_tree s1)) sh && wfb Z ml mi (t_tree s1) && run_shapes_ok vs ir ml mi s1 r shs'
+  | _, _ => false
+  end.
+Definition t3case_ok (c : wt3case) : bool :=
+  match c with TC3 ml mi vs ir calls shs => run_shapes_ok vs ir ml mi init calls shs end.
